@@ -22,6 +22,8 @@ pub struct Map {
     pub names: Vec<String>,
     pub toks: Vec<Tok>,
     pub has_sources_content: bool,
+    /// optional embedded contents, parallel to `sources` (emitted when non-empty)
+    pub sources_content: Vec<Option<String>>,
 }
 
 const B64: &[u8; 64] = b"ABCDEFGHIJKLMNOPQRSTUVWXYZabcdefghijklmnopqrstuvwxyz0123456789+/";
@@ -197,6 +199,12 @@ impl Map {
             "names".into(),
             Value::Array(self.names.iter().map(|s| Value::from(s.clone())).collect()),
         );
+        if !self.sources_content.is_empty() {
+            o.insert(
+                "sourcesContent".into(),
+                Value::Array(self.sources_content.iter().map(|c| c.clone().map(Value::from).unwrap_or(Value::Null)).collect()),
+            );
+        }
         o.insert("mappings".into(), Value::from(mappings));
         Value::Object(o).to_string()
     }
